@@ -36,6 +36,10 @@ E1 (explicit-state exploration on the real objects)
     operation (now including str(), repr() and %-/format-style printing) or none, the full read-out, and then one
     more operation at EVERY position (delete / overwrite) or at the end (append, refused append, delete of an
     absent key; collectors: append list/dict, refused dict row, sorts), again with the full read-out.
+  * Object identity of names (round 5): keys and column names are multi-character ('ka', 'cx'; one-character
+    strings are singletons in CPython) and EVERY name handed to the library (append / set / del / t[k] / t.k /
+    `in`, constructor parameters, column declarations, dict-row names, sort, rc[col], rc.col) is a freshly built
+    equal string object (_fk), as names computed at run time are; the models compare with ==.
   * Guard for the de-duplication argument: ALL operation sequences up to a smaller depth are executed unpruned
     (with the single read operation "whole read-out").
 E2 (complete enumeration)
